@@ -312,7 +312,7 @@ Qed.
 (* ---------------------------------------------------------------- the whole parser *)
 Lemma parse_lines_good : forall pomdp ls, good any (parse_lines true pomdp ls).
 Proof.
-  intros pomdp ls. unfold parse_lines.
+  intros pomdp ls. unfold parse_lines, parse_lines_from.
   apply good_bind with (P := fun r => pre_ok (fst r)); [apply parseModelInfo_good; apply pre0_ok|].
   intros [p body] (HS & HA & HO). cbn [fst snd] in *.
   destruct ((pS p =? 0)%N || (pA p =? 0)%N || (pomdp && (pO p =? 0)%N)); [exact I|].
